@@ -45,9 +45,6 @@ Inductive image_of (s0 : fs) (t : list syscall) (img : fs) : Prop :=
     fs_run s0 (t1 ++ [SWrite f b1]) = Some img -> image_of s0 t img.
 
 (* ---------- representation of a record-level directory by bytes ---------- *)
-Fixpoint hint_bytes (hs : list hint) : bytes :=
-  match hs with [] => [] | h :: hs' => enc_hint h ++ hint_bytes hs' end.
-
 (* [torn]: the data file [fst torn] carries the extra bytes [snd torn] after its records *)
 Definition rep_torn (s : fs) (d : dir) (torn : N * bytes) : Prop :=
   forall id, match dir_get d id with
@@ -63,6 +60,35 @@ Proof.
     destruct (id =? a), (id =? 0); exact H.
 Qed.
 
+(* What the scanner reads.  A file without hint file is scanned record by record: its bytes are the
+   records of [d] and possibly a torn tail (a strict prefix of some record), which reads as end of
+   input.  Of a file with a hint file only the hint file is scanned (its last entry may be torn); the
+   data file is not read at start-up, whatever follows the records the hints describe. *)
+Definition torn_entry (tail : bytes) : Prop := tail = [] \/ exists e q, wf_entry e /\ q <> [] /\ enc_entry e = tail ++ q.
+Definition torn_hint (tail : bytes) : Prop := tail = [] \/ exists h q, wf_hint h /\ q <> [] /\ enc_hint h = tail ++ q.
+
+Definition reads_as (img : fs) (d : dir) : Prop :=
+  forall id, match dir_get d id with
+             | Some f =>
+               match d_hint f with
+               | None => (exists tail, img (FData id) = Some (file_bytes (d_data f) ++ tail) /\ torn_entry tail) /\ img (FHint id) = None
+               | Some hs => (exists b, img (FData id) = Some (file_bytes (d_data f) ++ b)) /\
+                            (exists tail, img (FHint id) = Some (hint_bytes hs ++ tail) /\ torn_hint tail)
+               end
+             | None => img (FData id) = None /\ img (FHint id) = None
+             end.
+
+Lemma rep_torn_reads img d a p : rep_torn img d (a, p) -> torn_entry p -> reads_as img d.
+Proof.
+  intros Hr Ht id. specialize (Hr id). cbn [fst snd] in Hr. destruct (dir_get d id) as [f|]; [|exact Hr]. destruct Hr as [Hd Hh].
+  destruct (d_hint f) as [hs|]; cbn [option_map] in Hh.
+  - split; [eexists; exact Hd|]. exists []. rewrite app_nil_r. split; [exact Hh|left; reflexivity].
+  - split; [|exact Hh]. eexists. split; [exact Hd|]. destruct (id =? a); [exact Ht|left; reflexivity].
+Qed.
+
+Lemma rep_reads img d : rep img d -> reads_as img d.
+Proof. intros H. apply (rep_torn_reads img d 0 []); [exact H|left; reflexivity]. Qed.
+
 Lemma dir_get_set d id f : forall j, dir_get (dir_set d id f) j = if id =? j then Some f else dir_get d j.
 Proof.
   induction d as [|[i g] d IH]; intros j; cbn [dir_set dir_get].
@@ -75,18 +101,25 @@ Qed.
 (* ---------- what the scanner reads from an image ---------- *)
 Definition wf_dir (d : dir) : Prop := forall id f, In (id, f) d -> Forall wf_entry (d_data f).
 
-(* the records of every data file of a represented directory are what the scan of its bytes yields,
-   torn tail or not *)
-Theorem rep_scan s d a p e q : rep_torn s d (a, p) -> wf_dir d -> wf_entry e -> enc_entry e = p ++ q -> (p = [] \/ q <> []) ->
+(* what [reads_as] means for the scanner: record by record for files without hint file, hint by hint
+   otherwise — torn tails read as end of input, provided the torn record is representable *)
+Definition wf_hints (d : dir) : Prop := forall id f hs, In (id, f) d -> d_hint f = Some hs -> Forall wf_hint hs.
+
+Theorem reads_scan img d : reads_as img d -> wf_dir d -> wf_hints d ->
   forall id f, dir_get d id = Some f ->
-    exists b, s (FData id) = Some b /\ scan dec_entry b = Some (layout 0 (d_data f)).
+    match d_hint f with
+    | None => exists b, img (FData id) = Some b /\ scan dec_entry b = Some (layout 0 (d_data f))
+    | Some hs => exists b, img (FHint id) = Some b /\ scan dec_hint b = Some (hint_layout 0 hs)
+    end.
 Proof.
-  intros Hr Hw He E Hpq id f Hg. specialize (Hr id). rewrite Hg in Hr. destruct Hr as [Hd _]. cbn [fst snd] in Hd.
-  eexists. split; [exact Hd|]. pose proof (Hw id f (dir_get_In _ _ _ Hg)) as Hf.
-  destruct (id =? a).
-  - destruct Hpq as [->|Hq]; [rewrite app_nil_r; apply scan_file; exact Hf|].
+  intros Hr Hw Hwh id f Hg. specialize (Hr id). rewrite Hg in Hr. pose proof (dir_get_In _ _ _ Hg) as Hin.
+  destruct (d_hint f) as [hs|] eqn:Eh.
+  - destruct Hr as [_ (tail & Hb & Ht)]. eexists. split; [exact Hb|]. pose proof (Hwh id f hs Hin Eh) as Hhs.
+    destruct Ht as [->|(h & q & Hwfh & Hq & E)]; [rewrite app_nil_r; apply scan_hint_file; exact Hhs|].
+    eapply scan_torn_hint_file; eauto.
+  - destruct Hr as [(tail & Hb & Ht) _]. eexists. split; [exact Hb|]. pose proof (Hw id f Hin) as Hf.
+    destruct Ht as [->|(e & q & Hwfe & Hq & E)]; [rewrite app_nil_r; apply scan_file; exact Hf|].
     eapply scan_torn_file; eauto.
-  - rewrite app_nil_r. apply scan_file. exact Hf.
 Qed.
 
 Lemma sorted_app_inv_l (d1 d2 : dir) : sorted (d1 ++ d2) -> sorted d1.
@@ -183,22 +216,40 @@ Qed.
 
 (* The verdict for an image: it is represented — up to a torn tail that is a strict prefix of the
    record in flight — by a directory that recovers to the map [m]. *)
-Definition image_recovers (img : fs) (e : entry) (m : bytes -> option bytes) : Prop :=
-  exists d a p q, rep_torn img d (a, p) /\ enc_entry e = p ++ q /\ (p = [] \/ q <> []) /\ recovers_to d m.
+Definition image_recovers (img : fs) (m : bytes -> option bytes) : Prop :=
+  exists d, reads_as img d /\ recovers_to d m.
+
+Lemma mk_img img d a p e q m : wf_entry e -> rep_torn img d (a, p) -> enc_entry e = p ++ q -> (p = [] \/ q <> []) -> recovers_to d m -> image_recovers img m.
+Proof.
+  intros Hwfe Hr E Hpq Hrec. exists d. split; [|exact Hrec]. apply (rep_torn_reads img d a p Hr).
+  destruct Hpq as [->|Hq]; [left; reflexivity|right; exists e, q; auto].
+Qed.
+
+(* every record and hint the trace writes is representable (lengths below 2^64, timestamps in i64) *)
+Definition call_wf (c : syscall) : Prop :=
+  match c with
+  | SWrite (FData _) b => exists e, wf_entry e /\ b = enc_entry e
+  | SWrite (FHint _) b => exists h, wf_hint h /\ b = enc_hint h
+  | _ => True
+  end.
+Definition trace_wf (t : list syscall) : Prop := Forall call_wf t.
 
 (* ---------- one append ---------- *)
-Theorem write_crash_safe c s k v s' l t s0 : Inv s -> write c s k v = ROk (s', l, t) -> rep s0 (s_dir s) ->
+Theorem write_crash_safe c s k v s' l t s0 : Inv s -> write c s k v = ROk (s', l, t) -> rep s0 (s_dir s) -> trace_wf t ->
   sorted (s_dir s') -> (forall id f, In (id, f) (s_dir s') -> hints_ok f) ->
   slog s' = slog s ++ [(s_active s, l_pos l, mkEntry (s_clock s) k v)] ->
   let e := mkEntry (s_clock s) k v in
   let before := fun k' => lastval (slog s) k' None in
   let after := fun k' => lastval (slog s') k' None in
   (exists s1, fs_run s0 t = Some s1 /\ rep s1 (s_dir s')) /\
-  forall img, image_of s0 t img -> image_recovers img e before \/ image_recovers img e after.
+  forall img, image_of s0 t img -> image_recovers img before \/ image_recovers img after.
 Proof.
-  intros HI Hw Hr Hs' Hh' Hlog. cbv zeta.
+  intros HI Hw Hr Hwft Hs' Hh' Hlog. cbv zeta.
   destruct (write_shape c s k v s' l t HI Hw) as (fa & Hfa & Hfh & Hshape). cbv zeta in Hshape.
   set (e := mkEntry (s_clock s) k v) in *. set (a := s_active s) in *.
+  assert (Hwfe : exists e', wf_entry e' /\ enc_entry e = enc_entry e').
+  { destruct Hshape as [(Ht & _)|(Ht & _)]; rewrite Ht in Hwft; inversion Hwft as [|? ? Hc _]; subst; exact Hc. }
+  destruct Hwfe as (e' & Hwfe & Ee').
   set (d2 := dir_set (s_dir s) a (mkFile (d_data fa ++ [e]) None)) in *.
   pose proof HI as (Hs & Hle & Hh & _ & _ & _ & _).
   assert (Hne : s_dir s <> []) by (intros E; rewrite E in Hfa; discriminate).
@@ -219,21 +270,20 @@ Proof.
   { apply recovers_log; [exact Hs'| |exact Hh']. destruct Hshape as [(_ & Hd)|(_ & Hd & _)]; rewrite Hd; [exact Hne2|destruct d2; discriminate]. }
   (* the images of [SWrite .. :: rest] where [rest] does not touch the record bytes *)
   assert (Himg_write : forall img t1 t2, SWrite (FData a) (enc_entry e) :: sync_calls c a = t1 ++ t2 -> fs_run s0 t1 = Some img ->
-            image_recovers img e (fun k' => lastval (slog s) k' None) \/ image_recovers img e (fun k' => lastval (slog s') k' None)).
+            image_recovers img (fun k' => lastval (slog s) k' None) \/ image_recovers img (fun k' => lastval (slog s') k' None)).
   { intros img t1 t2 E R. apply prefix_cons in E as [[-> _]|(t1' & -> & E')].
-    - cbn [fs_run] in R. inversion R; subst. left. exists (s_dir s), a, [], (enc_entry e).
-      split; [apply rep_torn_nil; exact Hr|]. split; [reflexivity|]. split; [left; reflexivity|exact Vbefore].
-    - cbn [fs_run] in R. rewrite Hstep in R. right. exists d2, a, [], (enc_entry e).
+    - cbn [fs_run] in R. inversion R; subst. left. apply (mk_img _ (s_dir s) a [] e' (enc_entry e') _ Hwfe); [apply rep_torn_nil; exact Hr|reflexivity|left; reflexivity|exact Vbefore].
+    - cbn [fs_run] in R. rewrite Hstep in R. right.
       assert (img = s1).
       { unfold sync_calls in E'. destruct (c_sync c).
         - apply prefix_cons in E' as [[-> _]|(t1'' & -> & E'')]; [cbn in R; inversion R; reflexivity|].
           destruct t1''; [|destruct t1''; discriminate]. cbn [fs_run fs_step] in R. destruct (s1 (FData a)); [inversion R; reflexivity|contradiction].
         - destruct t1'; [cbn in R; inversion R; reflexivity|discriminate]. }
-      subst img. split; [apply rep_torn_nil; exact Hr1|]. split; [reflexivity|]. split; [left; reflexivity|exact V2]. }
+      subst img. apply (mk_img s1 d2 a [] e' (enc_entry e') _ Hwfe); [apply rep_torn_nil; exact Hr1|reflexivity|left; reflexivity|exact V2]. }
   assert (Himg_torn : forall img b1 b2, enc_entry e = b1 ++ b2 -> b2 <> [] -> fs_run s0 [SWrite (FData a) b1] = Some img ->
-            image_recovers img e (fun k' => lastval (slog s) k' None)).
+            image_recovers img (fun k' => lastval (slog s) k' None)).
   { intros img b1 b2 E Hb R. cbn [fs_run] in R. rewrite (rep_write s0 (s_dir s) a fa b1 Hr Hfa) in R. inversion R; subst.
-    exists (s_dir s), a, b1, b2. split; [apply rep_after_partial; assumption|]. split; [exact E|]. split; [right; exact Hb|exact Vbefore]. }
+    apply (mk_img _ (s_dir s) a b1 e' b2 _ Hwfe); [apply rep_after_partial; assumption|rewrite <- Ee'; exact E|right; exact Hb|exact Vbefore]. }
   destruct Hshape as [(Ht & Hd)|(Ht & Hd & Hn)].
   - (* no rollover *)
     split.
@@ -241,7 +291,7 @@ Proof.
     + intros img Him. rewrite Ht in Him. destruct Him as [t1 t2 E R|t1 f b1 b2 t2 E Hb R].
       * eapply Himg_write; eauto.
       * apply prefix_cons in E as [[-> E]|(t1' & -> & E')].
-        -- inversion E; subst. left. eapply Himg_torn; eauto.
+        -- injection E as Hf Hb12. subst f. left. exact (Himg_torn img b1 b2 (eq_sym Hb12) Hb R).
         -- exfalso. unfold sync_calls in E'. destruct (c_sync c); [|destruct t1'; discriminate].
            destruct t1' as [|x t1'']; [discriminate|]. cbn [app] in E'. inversion E' as [[Hx E'']]. destruct t1''; discriminate.
   - (* rollover: one more call, the creation of the next active file *)
@@ -263,13 +313,11 @@ Proof.
         apply app_eq_app_cases in E as [(q1 & Hq1 & E1 & _)|(p2 & -> & E2)].
         -- eapply Himg_write; [exact E1|exact R].
         -- rewrite Hrun2 in R. destruct p2 as [|x p2].
-           ++ cbn in R. inversion R; subst. right. exists d2, a, [], (enc_entry e).
-              split; [apply rep_torn_nil; exact Hr1|]. split; [reflexivity|]. split; [left; reflexivity|exact V2].
+           ++ cbn in R. inversion R; subst. right. apply (mk_img _ d2 a [] e' (enc_entry e') _ Hwfe); [apply rep_torn_nil; exact Hr1|reflexivity|left; reflexivity|exact V2].
            ++ cbn [app] in E2. inversion E2 as [[Hx E3]]. subst x. destruct p2; [|destruct p2; discriminate].
-              cbn [fs_run] in R. rewrite Hcr in R. inversion R; subst. right. exists (s_dir s'), a, [], (enc_entry e).
-              split; [apply rep_torn_nil; rewrite Hd; exact Hr2|]. split; [reflexivity|]. split; [left; reflexivity|exact Vafter].
+              cbn [fs_run] in R. rewrite Hcr in R. inversion R; subst. right. apply (mk_img _ (s_dir s') a [] e' (enc_entry e') _ Hwfe); [apply rep_torn_nil; rewrite Hd; exact Hr2|reflexivity|left; reflexivity|exact Vafter].
       * apply prefix_cons in E as [[-> E]|(t1' & -> & E')].
-        -- inversion E; subst. left. eapply Himg_torn; eauto.
+        -- injection E as Hf Hb12. subst f. left. exact (Himg_torn img b1 b2 (eq_sym Hb12) Hb R).
         -- exfalso. assert (Hnw : forall x, In x (sync_calls c a ++ [SCreate (FData (s_last s + 1))]) -> forall g b, x <> SWrite g b).
            { intros x Hx g b. unfold sync_calls in Hx. destruct (c_sync c); cbn in Hx; intuition (subst; discriminate). }
            assert (Hin : In (SWrite f (b1 ++ b2)) (t1' ++ SWrite f (b1 ++ b2) :: t2)) by (apply in_or_app; right; left; reflexivity).
